@@ -39,8 +39,13 @@ def bf_inplace(v):
 def pdu_eq(d, obj):
     """decoded == original and original == decoded.  A Finished PDU whose caller wrote 'no responses' as None keeps that None
     in the caller's FinishedParams object (FinishedPdu works on the caller's object and does not rewrite it), and the
-    parameter records are compared as they are: the comparison is then made with the twin built with the [] spelling."""
-    o = getattr(obj, "_vp_twin", obj)
+    parameter records are compared as they are: the comparison is then made with an equal PDU built with the [] spelling."""
+    o = obj
+    if type(obj).__name__ == "FinishedPdu" and obj.file_store_responses is None:
+        from spacepackets.cfdp.pdu import FinishedPdu
+        from spacepackets.cfdp.pdu.finished import FinishedParams
+        o = FinishedPdu(copy.copy(obj.pdu_header.pdu_conf),
+                        FinishedParams(obj.condition_code, obj.delivery_code, obj.file_status, [], obj.fault_location))
     return bool(d == o) and bool(o == d)
 
 
@@ -138,17 +143,7 @@ def mk_pdu(kind, cfg, p):
         params = FinishedParams(enum_arg(ConditionCode, p["cond"], K), enum_arg(DeliveryCode, p["delivery"], K),
                                 enum_arg(FileStatus, p["status"], K),
                                 empty_arg([mk_fsresp(r) for r in p["responses"]], K, cfg["crc"]), _entity(p["fault"]))
-        if params.file_store_responses is None:
-            import copy as _c
-
-            def ctor():
-                o = P.FinishedPdu(conf, params)
-                twin_params = _c.copy(params)
-                twin_params.file_store_responses = []
-                o._vp_twin = P.FinishedPdu(_c.copy(conf), twin_params)
-                return o
-        else:
-            ctor = lambda: P.FinishedPdu(conf, params)
+        ctor = lambda: P.FinishedPdu(conf, params)
     elif kind == "ack":
         from spacepackets.cfdp.pdu.ack import TransactionStatus
         ctor = lambda: P.AckPdu(conf, enum_arg(P.DirectiveType, p["acked"], K), enum_arg(ConditionCode, p["cond"], K),
@@ -196,41 +191,66 @@ def mk_pdu_via_setters(kind, cfg, p):
     documented setter, packed once, then brought to p with those setters. Must be indistinguishable from mk_pdu(kind, cfg, p)."""
     from spacepackets.cfdp.tlv import EntityIdTlv, CfdpTlv
     from spacepackets.cfdp.tlv.defs import TlvType
+    import zlib
     q = copy.deepcopy(p)
-    if kind in ("eof", "finished") and p["fault"]:
+    # which fields start with other values (and are therefore brought to p by their setter afterwards): all of them, or only
+    # one group - a setter must do its work without help from a later setter
+    sel = zlib.crc32(repr(sorted(p.items())).encode()) % 3
+    decoded_first = (zlib.crc32(repr((kind, sorted(cfg.items()))).encode()) + sel) % 2 == 1
+    touch = set()
+    if kind in ("eof", "finished") and p["fault"] and (kind == "eof" or sel != 1):
         v = p["fault"][0]
         # the same entity number in another width (or another number)
         q["fault"] = [([0] + v) if len(v) in (1,) else (v[1:] if len(v) == 2 and v[0] == 0 else [(v[0] + 1) % 256] + v[1:])]
-    if kind == "finished":
+        touch.add("fault")
+    if kind in ("eof", "finished") and not p["fault"]:
+        touch.add("fault")
+    if kind == "finished" and sel != 2:
         q["responses"] = p["responses"][:-1] if p["responses"] else [{"action": 5, "status": 0, "n1": [113], "n2": [], "msg": []}]
+        touch.add("responses")
     if kind == "metadata":
-        q["srcname"], q["dstname"] = p["srcname"] + [120], ([121] + p["dstname"]) if len(p["dstname"]) < 200 else [121]
-        q["options"] = p["options"][1:] if p["options"] else [{"t": 5, "v": [1]}]
+        if sel != 1:
+            q["srcname"], q["dstname"] = p["srcname"] + [120], ([121] + p["dstname"]) if len(p["dstname"]) < 200 else [121]
+            touch.add("names")
+        if sel != 2:
+            q["options"] = p["options"][1:] if p["options"] else [{"t": 5, "v": [1]}]
+            touch.add("options")
     if kind == "nak":
         q["segs"] = p["segs"][:-1] if p["segs"] else [[p["start"], p["end"]]]
+        touch.add("segs")
     if kind == "filedata":
-        q["data"] = p["data"] + [85]
-        q["meta"] = [] if p["meta"] else [{"state": 1, "md": [9]}]
+        if sel != 1:
+            q["data"] = p["data"] + [85]
+            touch.add("data")
+        if sel != 2:
+            # other metadata: absent <-> present, or present with another length
+            q["meta"] = ([] if sel == 0 else [{"state": p["meta"][0]["state"], "md": p["meta"][0]["md"][:-1] if len(p["meta"][0]["md"]) > 40
+                                              else p["meta"][0]["md"] + [9, 9]}]) if p["meta"] else [{"state": 1, "md": [9]}]
+            touch.add("meta")
     obj, conf, params, snap = mk_pdu(kind, cfg, q)
-    obj.pack()
-    if kind in ("eof", "finished"):
+    first = bytes(obj.pack())
+    if decoded_first:
+        # the object the setters are applied to was DECODED (e.g. a PDU that is forwarded with changes), not constructed
+        obj = type(obj).unpack(first)
+    if "fault" in touch:
         obj.fault_location = EntityIdTlv(bytes(p["fault"][0])) if p["fault"] else None
-    if kind == "finished":
+    if "responses" in touch:
         obj.file_store_responses = [mk_fsresp(r) for r in p["responses"]]
-    if kind == "metadata":
+    if "names" in touch:
         obj.source_file_name = _name(p["srcname"]) if p["srcname"] else None
         obj.dest_file_name = _name(p["dstname"]) if p["dstname"] else None
+    if "options" in touch:
         obj.options = [CfdpTlv(TlvType(o["t"]), bytes(o["v"])) for o in p["options"]] if p["options"] else None
-    if kind == "nak":
+    if "segs" in touch:
         obj.segment_requests = [(_i(s), _i(e)) for s, e in p["segs"]]
     if kind == "filedata":
         from spacepackets.cfdp.pdu.file_data import SegmentMetadata, RecordContinuationState
-        assign_grown(obj, "file_data", p["data"])
-        obj.segment_metadata = (SegmentMetadata(RecordContinuationState(p["meta"][0]["state"]), bytes(p["meta"][0]["md"]))
-                                if p["meta"] else None)
+        if "data" in touch:
+            assign_grown(obj, "file_data", p["data"])
+        if "meta" in touch:
+            obj.segment_metadata = (SegmentMetadata(RecordContinuationState(p["meta"][0]["state"]), bytes(p["meta"][0]["md"]))
+                                    if p["meta"] else None)
     # the caller's objects were legitimately written through by the setters: compare from here on
-    if hasattr(obj, "_vp_twin"):
-        del obj._vp_twin             # (the twin described the values before the setters)
     return obj, conf, params, _snapshot(conf, params)
 
 
